@@ -900,6 +900,10 @@ func (ex *Exec) insertionSort(s SliceV, less func(i, j int) bool) {
 	}
 }
 
+func init() {
+	intrinsics["golang.org/x/exp/slices.Sort"] = intrinsics["slices.Sort"]
+}
+
 func lookupIntrinsic(fn *ssa.Function) intrinsicFn {
 	name := fn.Name()
 	if strings.HasPrefix(name, "vp") && fn.Signature.Recv() == nil {
